@@ -644,7 +644,10 @@ def make_jobs(ctx, subs):
         if ctx.thorough and subj.size <= 45:
             combos = all_combos
         elif ctx.thorough:
-            rest = [c for c in all_combos if c not in must]
+            # large symbols: sampled combinations; the non-dyadic scale 3.3 is left to the smaller symbols (the exact
+            # rational arithmetic of the Gallina readers does not reduce fractions, so thousands of operations on
+            # k/2^50 coordinates exhaust memory)
+            rest = [c for c in all_combos if c not in must and c[0] != 3.3]
             combos = must + rng.sample(rest, 6)
         else:
             rest = [c for c in all_combos if c not in must]
